@@ -205,6 +205,7 @@ def replay(case):
         M[i, j] = M[j, i] = float(Fraction(v)) / de
         P[(i, j)] = P[(j, i)] = float(Fraction(v))
     D = pa.PrecomputedCategoricalDissimilarity(cats, M, delta_empty=de)
+    before = [(a, u) for a, u in c]
     try:
         fast = c.get_fast_alignment(D, case["w"])
     except BaseException as ex:     # noqa: BLE001
@@ -212,6 +213,9 @@ def replay(case):
             return dict(reproduced=True, timeout=True, detail=f"get_fast_alignment(window={case['w']}) did not return within the alarm")
         return dict(reproduced=True, detail="get_fast_alignment raised " + repr(ex)[:300])
     bad = []
+    if [(a, u) for a, u in c] != before:
+        bad.append(f"the input continuum was modified: {len(before)} units before, {c.num_units} after")
+        c = common.real_continuum(case)
     seen = {}
     for ua in fast.unitary_alignments:
         for a, u in ua.n_tuple:
